@@ -8,5 +8,5 @@ Next == UNCHANGED fv
 Spec == Init /\ [][Next]_fv
 M == ModelOf(fv)
 Emit == /\ EmitScenario([fv |-> fv, am |-> M, inj |-> [name |-> "valid base model", acc |-> {}, mut |-> "none"]])
-        /\ \A inj \in Injections(M) \cup DuplicateIdInjections(M) \cup ContextInjections(M) : EmitScenario([fv |-> fv, am |-> M, inj |-> inj])
+        /\ \A inj \in Injections(M) \cup DuplicateIdInjections(M) \cup ContextInjections(M) \cup ResolvedInjections(M) : EmitScenario([fv |-> fv, am |-> M, inj |-> inj])
 =============================================================================
